@@ -1,3 +1,6 @@
 pub mod a1;
 pub mod a2;
 pub mod a3;
+pub mod a4;
+pub mod a5;
+pub mod a6;
